@@ -7,7 +7,7 @@
 //! the statement violated at a model-chosen location.
 //! Oracle: valid => artifacts, no diagnostics; mutant => at least one diagnostic. A crash of the
 //! compiler is C08's business and is only counted here.
-use crate::cases::{self, CaseSpec, Exclusions, Kind};
+use gen_project::cases::{self, CaseSpec, Exclusions, Kind};
 use gen_project::compile::{self, Outcome};
 use serde_json::{json, Value};
 use std::sync::atomic::{AtomicU64, Ordering};
